@@ -109,3 +109,15 @@ Print Assumptions c04_max_bound.
 Theorem c04_required_rejects_nil_pointer : validate_required WPtrNil = Err ERequired "".
 Proof. exact required_rejects_nil_pointer. Qed.
 Print Assumptions c04_required_rejects_nil_pointer.
+
+(* since fix F84 the emptiness checks judge the value at the end of a chain of non-nil pointers of
+   ANY length ([ptrs n w]: n pointers around w), like the numeric validators *)
+Theorem c04_nonzero_string_behind_pointers : forall n s,
+  validate_nonzero (ptrs n (WPrim (CS s))) = Ok tt <-> s <> "".
+Proof. exact nonzero_string_behind_pointers. Qed.
+Print Assumptions c04_nonzero_string_behind_pointers.
+
+Theorem c04_required_list_behind_pointers : forall n isnil len,
+  validate_required (ptrs (S n) (WSlice isnil len)) = Ok tt <-> (isnil = false /\ len <> 0%nat).
+Proof. exact required_list_behind_pointers. Qed.
+Print Assumptions c04_required_list_behind_pointers.
